@@ -10,6 +10,7 @@ Everything the transports do to their collaborators is recorded in one ordered e
   ['q', 'put'|'get', type, tag] the mux send queue (gevent.queue.Queue subclass)
   ['draw', v]                   random.randint(30, 40) of the ping loop
   ['arwait', ok]                AsyncResult.wait(timeout) returned (the ping time-out helper woke up)
+  ['arget', ok]                 a blocking AsyncResult.get() returned / raised (_OpenImpl waiting for the first Rping)
   ['post', call, kind, cls]     a message reached the terminator frame of a call's sink stack
   ['fault', cls]                an on_faulted subscriber was notified
 Nothing private of the sinks is read.
@@ -142,18 +143,25 @@ class Sock(V.FakeG):
       if fault == 'hang':
         emit('io', 'recv', 'hang')
         self._hang.wait()
-        return 0
+        emit('io', 'recv', 'closed')
+        raise _socket.error(9, 'Bad file descriptor')
       emit('io', 'recv', 'exc')
       raise fault
     while not self._rxq:
+      if self._closed:
+        break
       if self._err is not None:
         emit('io', 'recv', 'reset')
         raise self._err
-      if self._eof or self._closed:
-        emit('io', 'recv', 'eof' if self._eof and not self._closed else 'closed')
+      if self._eof:
+        emit('io', 'recv', 'eof')
         return 0
       self._ev.clear()
       self._ev.wait()
+    if self._closed:
+      # closed by another greenlet while this one was blocked: gevent cancels the wait with EBADF
+      emit('io', 'recv', 'closed')
+      raise _socket.error(9, 'Bad file descriptor')
     chunk = self._rxq[0]
     n = min(sz or len(view), len(chunk))
     view[:n] = chunk[:n]
@@ -289,6 +297,21 @@ def setup(repo):
       emit('arwait', bool(self.successful()))
     return r
   sa.AsyncResult.wait = ar_wait
+  prev_get = sa.AsyncResult.get
+
+  def ar_get(self, block=True, timeout=None):
+    if self.ready() or not block:
+      return prev_get(self, block, timeout)
+    try:
+      r = prev_get(self, block, timeout)
+    except gevent.GreenletExit:
+      raise
+    except BaseException:
+      emit('arget', False)
+      raise
+    emit('arget', True)
+    return r
+  sa.AsyncResult.get = ar_get
 
   class Term(sk.ClientMessageSink):
     """Bottom frame of a call's sink stack: records every message that reaches it and pushes itself back, so a
@@ -435,7 +458,7 @@ class Run(object):
       S['mser'].Marshal(msg, buf, headers)
     else:
       S['tser'].SerializeThriftCall(msg, buf)
-    emit('api', 'req', c)
+    emit('api', 'req', c, dl)
     try:
       self.sink.AsyncProcessRequest(st, msg, buf, headers)
     except Exception as e:      # an exception out of AsyncProcessRequest itself
@@ -462,7 +485,7 @@ class Run(object):
 
   def connecting(self):
     b = sum(1 for e in self.ev if e[0] == 'io' and e[1] == 'connect-begin')
-    d = sum(1 for e in self.ev if e[0] == 'io' and e[1] == 'connect')
+    d = sum(1 for e in self.ev if e[0] == 'io' and e[1] == 'connect' and e[2] != 'hang')
     return b > d
 
   def inflight(self):
@@ -485,7 +508,7 @@ class Run(object):
       self.opi = i
       k = op[0]
       if k == 'open':
-        if (self.mux and self.open_ars) or (not self.mux and (self.inflight() or self.open_pending())):
+        if self.open_ars or (not self.mux and self.inflight()):     # a sink is opened once (closed sinks are replaced)
           emit('api', 'skip', 'open')
         else:
           emit('api', 'open')
